@@ -152,6 +152,9 @@ contract('parso.cache._load_from_file_system',
                    'file_item(%s).node.ver == ver_at(path, file_item(%s).change_time))' % (HP, HP, HP, HP, HP)],
          ensures=['implies(result is not None, result.ver == ver_at(path, p_time))',
                   'implies(result is not None, result is file_item(%s).node)' % HP],
+         # (the loop reads the attributes a usable item needs: a damaged file may unpickle to an instance that lacks some -- the heap
+         # model gives every instance of a class all its fields, so that part is decided by the bounded incomplete-item patterns only)
+         loops={0: dict(invariant=[])},
          raises=[], modifies=['parser_cache', '$maps'], props=['C16', 'C17'])
 
 # ---- a tree from the in-memory cache is returned only while the entry's stamp is not older than the file's mtime.
